@@ -40,7 +40,7 @@ def run_case(case):
                     expected += le(v, k)
             elif kind == "ascii":
                 lines.append(f".ascii '{payload}'")
-                expected += payload.encode("ascii")
+                expected += payload.encode("ascii", errors="ignore")  # characters outside ASCII are not emitted (and take no room in the layout)
             elif kind == "incbin":
                 if "same_as" in payload:
                     # the SAME file included again (a sprite sheet, a font used twice): verbatim again; its start symbol names the last copy
@@ -123,6 +123,8 @@ def run(tier, seed):
              # long lists (tables of a thousand and more entries are ordinary): every value, in order
              {"stmts": [["db", {"values": [k & 0xFF for k in range(1500)], "text": ", ".join(str(k & 0xFF) for k in range(1500))}],
                         ["dw", {"values": [0x1000 + k for k in range(1100)], "text": ",".join(hex(0x1000 + k) for k in range(1100))}]], "start": 0x008000},
+             # characters outside ASCII (dropped, in the layout too) and double quotes (ordinary characters) inside the text
+             {"stmts": [["ascii", "caf\u00e9 au lait"], ["ascii", "\u00e9"], ["ascii", 'say "hi" twice'], ["ascii", '"'], ["db", {"values": [7], "text": "7"}]], "start": 0x008000},
              # an escaped quote (backslash + quote, both emitted) at the end, at the start, alone, and doubled: only the two DELIMITERS are dropped
              {"stmts": [["ascii", "say \\'hi\\'"], ["ascii", "\\'"], ["ascii", "\\'a"], ["ascii", "a\\'"], ["ascii", "\\'\\'"], ["db", {"values": [7], "text": "7"}]], "start": 0x008000},
              {"stmts": [["ascii", "~/SAVE 1"], ["ascii", "~"], ["ascii", "$HOME %PATH% *.bin"], ["ascii", "~root/x"]], "start": 0x008000}]
